@@ -139,6 +139,11 @@ type Layout struct {
 	// content-level spellings (text unchanged): comments between tokens, the ' and "
 	// show operators, TJ arrays with kerning numbers, trailing lines moved into a Form XObject
 	Comments, Quotes, TJKern, Forms bool
+	BoxIndirect bool // MediaBox arrays hold indirect references to number objects
+	ObjStmFilter string // "" seed-chosen | none | Fl | FlP1 (Flate with an explicit /Predictor 1)
+	// Mutate: a semantic fault applied while writing revision MutateRev (C02 only)
+	Mutate    *Mutation
+	MutateRev int
 }
 
 // Built is the result of building a file.
@@ -149,6 +154,8 @@ type Built struct {
 	XRefOffsets []int64
 	StreamRanges map[string][2]int
 	Features []string // layout features actually present
+	ObjStmN   [][]int // per revision: entries per object-stream container
+	XRefCount []int   // per revision: entries of the xref stream (0 for a classic table)
 }
 
 // Edit is one incremental-update step applied to the logical document.
@@ -228,6 +235,9 @@ func (b *builder) filtersFor(key string, dataLen int) []FilterStage {
 	pm := func() string { return []string{"", "", "null", "dict"}[r.Intn(4)] }
 	switch kind {
 	case "Fl":
+		if r.Intn(4) == 0 {
+			return []FilterStage{{Kind: "Fl", Abbrev: ab(), Pred: 1}}
+		}
 		return []FilterStage{{Kind: "Fl", Abbrev: ab(), Parms: pm()}}
 	case "AHx":
 		return []FilterStage{{Kind: "AHx", Abbrev: ab(), Parms: pm()}}
@@ -476,6 +486,12 @@ func (b *builder) fontObjects(f Font, objs map[string]any) {
 		objs[key] = Dict{{"Type", Name("Font")}, {"Subtype", Name("TrueType")}, {"BaseFont", base}, {"Encoding", Name("WinAnsiEncoding")},
 			{"FirstChar", 32}, {"LastChar", 255}, {"ToUnicode", Ref{tu}}, {"VerifTag", Name(f.Tag)}}
 		objs[tu] = &Stream{Raw: ToUnicodeProgram(f.ToUnicode, 1, b.lay.EOL)}
+	case "t1-std14-tounicode":
+		// a standard-14 Type 1 font (no FontDescriptor needed) that still carries a ToUnicode CMap
+		tu := key + ":tounicode"
+		objs[key] = Dict{{"Type", Name("Font")}, {"Subtype", Name("Type1")}, {"BaseFont", Name([]string{"Helvetica", "Times-Roman", "Courier"}[f.ID%3])}, {"Encoding", Name("WinAnsiEncoding")},
+			{"ToUnicode", Ref{tu}}, {"VerifTag", Name(f.Tag)}}
+		objs[tu] = &Stream{Raw: ToUnicodeProgram(f.ToUnicode, 1, b.lay.EOL)}
 	case "type0-identity":
 		tu := key + ":tounicode"
 		desc := key + ":cid"
@@ -550,7 +566,18 @@ func (b *builder) materialize(d *Doc) (map[string]any, []string) {
 			dict = append(dict, KV{"Parent", Ref{fmt.Sprintf("node:%d", parent.ID)}})
 		}
 		if n.MediaBox != nil {
-			dict = append(dict, KV{"MediaBox", boxArr(*n.MediaBox)})
+			if b.lay.BoxIndirect {
+				arr := Arr{}
+				for k, v := range *n.MediaBox {
+					nk := fmt.Sprintf("%s:box%d", key, k)
+					objs[nk] = v
+					arr = append(arr, Ref{nk})
+				}
+				dict = append(dict, KV{"MediaBox", arr})
+				b.feat["box.indirect-numbers"] = true
+			} else {
+				dict = append(dict, KV{"MediaBox", boxArr(*n.MediaBox)})
+			}
 		}
 		if n.Rotate != nil {
 			dict = append(dict, KV{"Rotate", *n.Rotate})
@@ -701,6 +728,8 @@ func Build(seed int64, lay Layout, docs []*Doc) *Built {
 	b := &builder{lay: lay, seed: seed, r: rand.New(rand.NewSource(seed)), nums: map[string]int{}, gens: map[string]int{}, used: map[int]bool{}, written: map[string]string{}, feat: map[string]bool{}}
 	f := NewFile([]string{"1.4", "1.5", "1.7"}[b.r.Intn(3)], lay.EOL, lay.Tight, rand.New(rand.NewSource(seed^0x5bd1e995)))
 	live := map[string]bool{}
+	var objStmN [][]int
+	var xrefCount []int
 	for ri, d := range docs {
 		objs, _ := b.materialize(d)
 		xrefStream := lay.XRef[ri%len(lay.XRef)] == "stream"
@@ -814,7 +843,21 @@ func Build(seed int64, lay Layout, docs []*Doc) *Built {
 			for i := 0; i*rv.ObjStmMax < np; i++ {
 				rv.ObjStmNums = append(rv.ObjStmNums, b.alloc(fmt.Sprintf("objstm:r%d:%d", ri, i)))
 			}
-			if b.r.Intn(3) > 0 {
+			pick := b.r.Intn(4)
+			switch lay.ObjStmFilter {
+			case "none":
+				pick = 0
+			case "FlP1":
+				pick = 1
+			case "Fl":
+				pick = 2
+			}
+			switch pick {
+			case 0:
+			case 1:
+				rv.ObjStmFilters = []FilterStage{{Kind: "Fl", Pred: 1}} // explicit /Predictor 1
+				b.feat["objstm.predictor1"] = true
+			default:
 				rv.ObjStmFilters = []FilterStage{{Kind: "Fl"}}
 			}
 			if lay.ObjStmExtends && len(rv.ObjStmNums) > 1 {
@@ -839,7 +882,12 @@ func Build(seed int64, lay Layout, docs []*Doc) *Built {
 		if ri > 0 {
 			b.feat["rev.incremental"] = true
 		}
+		if lay.Mutate != nil && lay.MutateRev == ri {
+			rv.Mutate = lay.Mutate
+		}
 		f.WriteRevision(rv)
+		objStmN = append(objStmN, rv.OutObjStmN)
+		xrefCount = append(xrefCount, rv.OutXRefCount)
 	}
 	nm := map[string]int{}
 	for k, v := range b.nums {
@@ -850,5 +898,5 @@ func Build(seed int64, lay Layout, docs []*Doc) *Built {
 		feats = append(feats, k)
 	}
 	sort.Strings(feats)
-	return &Built{Bytes: append([]byte{}, f.Bytes()...), Fields: f.E.Fields, NumOf: nm, XRefOffsets: f.XRefOffsets, StreamRanges: f.StreamRanges, Features: feats}
+	return &Built{Bytes: append([]byte{}, f.Bytes()...), Fields: f.E.Fields, NumOf: nm, XRefOffsets: f.XRefOffsets, StreamRanges: f.StreamRanges, Features: feats, ObjStmN: objStmN, XRefCount: xrefCount}
 }
